@@ -341,98 +341,117 @@ func procC17(t *Target, tier string, r *Result) {
 
 	// ---- CopyTo: exactly one CopyTo<S>(diags, field value, attribute type, current value); result stored
 	var prev *types.Object
-	t.forEachSOpt(tier, r, sOpts{K: 1}, func(s interface{}, w SWitness) {
-		for round := 0; round < 2; round++ {
-			var o types.Object
-			if round == 0 {
-				o = EmptyObject(schema)
-				w.Ops = []string{"SetS", "EmptyO", "To"}
-			} else {
-				if prev == nil {
-					break
+	doTo := func(s interface{}, o types.Object, w interface{}, round int) (types.Object, bool) {
+		before := CopyObj(o)
+		var want []hookExpect
+		expectedToCalls(t.Spec, reflect.ValueOf(s).Elem(), before, st, "", &want)
+		tfx.Log = nil
+		res := t.callTo(s, &o)
+		r.Transitions++
+		if res.Panicked {
+			r.outcome("to/panic")
+			return o, false
+		}
+		got := callsOf("CopyTo")
+		if len(got) != len(want) {
+			r.violate("to/hook-call-count", "custom", fmt.Sprintf("%d CopyTo hook calls, %d custom fields reached", len(got), len(want)), w)
+			return o, false
+		}
+		r.outcome(fmt.Sprintf("to/calls=%d/round=%d", len(want), round))
+		used := make([]bool, len(got))
+		for _, e := range want {
+			idx := -1
+			why := ""
+			for i, c := range got {
+				if used[i] || c.Suffix != e.suffix {
+					continue
 				}
-				o = CopyObj(*prev)
-				w.Ops = []string{"SetS", "SetO(previous result)", "To"}
+				if a, b := exact(reflect.ValueOf(c.Args[1])), exact(e.field); a != b {
+					why = "field value " + a + " vs " + b
+					continue
+				}
+				at, _ := c.Args[2].(attr.Type)
+				if e.attrType != nil && (at == nil || !at.Equal(e.attrType)) {
+					why = fmt.Sprintf("attribute type %v vs %v", at, e.attrType)
+					continue
+				}
+				cv, _ := c.Args[3].(attr.Value)
+				if e.has && round >= 1 && !strings.Contains(e.path, "[") && (cv == nil || CanonO(cv) != CanonO(e.value)) {
+					why = "current value " + CanonO(cv) + " vs " + CanonO(e.value)
+					continue
+				}
+				if !e.has && cv != nil {
+					why = "current value " + CanonO(cv) + " for an absent attribute"
+					continue
+				}
+				idx = i
+				break
 			}
-			before := CopyObj(o)
-			var want []hookExpect
-			expectedToCalls(t.Spec, reflect.ValueOf(s).Elem(), before, st, "", &want)
-			tfx.Log = nil
-			res := t.callTo(s, &o)
-			r.Transitions++
-			if res.Panicked {
-				r.outcome("to/panic")
+			if idx < 0 {
+				r.violate("to/hook-arguments", "custom", fmt.Sprintf("no CopyTo%s call with (field value, attribute type, current value) of %s; last mismatch: %s", e.suffix, e.path, why), w)
 				continue
 			}
-			got := callsOf("CopyTo")
-			if len(got) != len(want) {
-				r.violate("to/hook-call-count", "custom", fmt.Sprintf("%d CopyTo hook calls, %d custom fields reached", len(got), len(want)), w)
-				continue
-			}
-			r.outcome(fmt.Sprintf("to/calls=%d/round=%d", len(want), round))
-			used := make([]bool, len(got))
-			for _, e := range want {
-				idx := -1
-				why := ""
-				for i, c := range got {
-					if used[i] || c.Suffix != e.suffix {
-						continue
-					}
-					if a, b := exact(reflect.ValueOf(c.Args[1])), exact(e.field); a != b {
-						why = "field value " + a + " vs " + b
-						continue
-					}
-					at, _ := c.Args[2].(attr.Type)
-					if e.attrType != nil && (at == nil || !at.Equal(e.attrType)) {
-						why = fmt.Sprintf("attribute type %v vs %v", at, e.attrType)
-						continue
-					}
-					cv, _ := c.Args[3].(attr.Value)
-					if e.has && round == 1 && !strings.Contains(e.path, "[") && (cv == nil || CanonO(cv) != CanonO(e.value)) {
-						why = "current value " + CanonO(cv) + " vs " + CanonO(e.value)
-						continue
-					}
-					if !e.has && cv != nil {
-						why = "current value " + CanonO(cv) + " for an absent attribute"
-						continue
-					}
-					idx = i
-					break
+			used[idx] = true
+			r.outcome("to/call-matched")
+			if e.has && round >= 1 && !strings.Contains(e.path, "[") {
+				switch {
+				case e.value.IsUnknown():
+					r.outcome("to/current-value-unknown-passed")
+				case e.value.IsNull():
+					r.outcome("to/current-value-null-passed")
+				default:
+					r.outcome("to/current-value-known-passed")
 				}
-				if idx < 0 {
-					r.violate("to/hook-arguments", "custom", fmt.Sprintf("no CopyTo%s call with (field value, attribute type, current value) of %s; last mismatch: %s", e.suffix, e.path, why), w)
-					continue
-				}
-				used[idx] = true
-				r.outcome("to/call-matched")
-			}
-			// the hook's return value is what the object holds (top-level custom attributes)
-			for _, a := range t.Spec.Attrs {
-				if a.Kind != spec.Custom {
-					continue
-				}
-				sv, ok := o.Attrs[a.Name].(tfx.SentinelValue)
-				if !ok {
-					r.violate("to/hook-result-not-stored", "custom", fmt.Sprintf("attribute %s holds %s, not the value CopyTo%s returned", a.Name, CanonO(o.Attrs[a.Name]), a.Suffix), w)
-					continue
-				}
-				found := false
-				for _, c := range got {
-					_ = c
-				}
-				if sv.Serial > tfx.Serial-len(got) && sv.Serial <= tfx.Serial {
-					found = true
-				}
-				if !found {
-					r.violate("to/hook-result-not-stored", "custom", fmt.Sprintf("attribute %s holds a stale hook result (#%d)", a.Name, sv.Serial), w)
-				} else {
-					r.outcome("to/result-stored")
-				}
-			}
-			if round == 0 {
-				oc := CopyObj(o)
-				prev = &oc
 			}
 		}
+		// the hook's return value is what the object holds (top-level custom attributes)
+		for _, a := range t.Spec.Attrs {
+			if a.Kind != spec.Custom {
+				continue
+			}
+			sv, ok := o.Attrs[a.Name].(tfx.SentinelValue)
+			if !ok {
+				r.violate("to/hook-result-not-stored", "custom", fmt.Sprintf("attribute %s holds %s, not the value CopyTo%s returned", a.Name, CanonO(o.Attrs[a.Name]), a.Suffix), w)
+				continue
+			}
+			if sv.Serial > tfx.Serial-len(got) && sv.Serial <= tfx.Serial {
+				r.outcome("to/result-stored")
+			} else {
+				r.violate("to/hook-result-not-stored", "custom", fmt.Sprintf("attribute %s holds a stale hook result (#%d)", a.Name, sv.Serial), w)
+			}
+		}
+		return o, true
+	}
+	// targets in the three other base states (null / unknown / known-zero attributes), decoded through the schema
+	var baseTargets []types.Object
+	var baseNames []string
+	for _, b := range []int{OBaseNull, OBaseUnknown, OBaseKnownZero} {
+		if o, _, err := t.buildO(&Chooser{}, b, oOpts{Admissible: true}); err == nil {
+			baseTargets = append(baseTargets, o)
+			baseNames = append(baseNames, map[int]string{OBaseNull: "null", OBaseUnknown: "unknown", OBaseKnownZero: "known-zero"}[b])
+		}
+	}
+	t.forEachSOpt(tier, r, sOpts{K: 1}, func(s interface{}, w SWitness) {
+		w.Ops = []string{"SetS", "EmptyO", "To"}
+		if o, ok := doTo(s, EmptyObject(schema), w, 0); ok {
+			oc := CopyObj(o)
+			w.Ops = []string{"SetS", "SetO(own result)", "To"}
+			doTo(s, CopyObj(oc), w, 1)
+			if prev != nil {
+				w.Ops = []string{"SetS", "SetO(previous result)", "To"}
+				doTo(s, CopyObj(*prev), w, 1)
+			}
+			prev = &oc
+		}
+		for i, bo := range baseTargets {
+			w.Ops = []string{"SetS", "SetO(" + baseNames[i] + " base object)", "To"}
+			doTo(s, CopyObj(bo), w, 2+i)
+		}
+	})
+	// one full source into every admissible object within one deviation of each base
+	src, _ := t.buildSOpt(&Chooser{}, BaseFull, sOpts{})
+	t.forEachO(tier, r, oOpts{Admissible: true, K: 1}, func(obj types.Object, w OWitness) {
+		w.Ops = []string{"SetS(full)", "SetO", "To"}
+		doTo(src, CopyObj(obj), w, 9)
 	})
 }
